@@ -5,8 +5,11 @@
      vtree        a tree of library views: text, str, flex (direction, justification, children with flex
                   factor / face / alignment, zero or more), container (size, alignments, margins, face), frame,
                   scroll bar, tag, Option::None, dynamic (any function from the constraint to a view), fill
-                  (RGBA), unit, image, glyph, and the harness's probe leaf.  Option::Some / Either are the
-                  wrapped view itself.  Trees deserialised from JSON are trees of this type.
+                  (RGBA), unit, image, glyph, surface view (SurfaceView<Cell>), image as half blocks
+                  (ImageAsciiView), cached view (JSON "ref"), and the harness's probe leaf.  Option::Some /
+                  Either / Box / Arc / TraceLayout are the wrapped view itself.  Trees deserialised from JSON
+                  (types text, flex, container, tag, image, image_ascii, glyph, ref) are trees of this type;
+                  "color" cannot be deserialised at all, custom handler types are whatever they return.
      ct, Valid    BoxConstraint with min <= max per axis (any extents, including 0 and 1)
      vctx         glyph capability, char widths, pixels per cell
      layout       View::layout: outcome of a layout tree (Panic where the code would panic)
@@ -30,8 +33,8 @@ Theorem C10_layout_total : forall (vc : vctx) (v : vtree) (c : ct),
   Valid c -> exists t, layout vc v c = Ok t.
 Proof. exact layout_total. Qed.
 
-(* (2) The size reported by text, str, flex, container, fill, unit, image, glyph (and probe) views lies
-   within the given constraint. *)
+(* (2) The size reported by text, str, flex, container, fill, unit, image, glyph, surface, half-block image
+   (and probe) views lies within the given constraint. *)
 Theorem C10_within : forall (vc : vctx) (v : vtree) (c : ct) (t : ltree),
   claimed_kind v = true -> Valid c -> layout vc v c = Ok t ->
   c_minh c <= l_hh t <= c_maxh c /\ c_minw c <= l_ww t <= c_maxw c.
